@@ -40,7 +40,10 @@ RULE = ('limit_df on (a) synthetic tiled cycle tables of both centrings with int
         'bool / string / >2^53 int feature columns, rows chronological, stacked or shuffled, and (b) tables computed by compute_features '
         '(pipeline.gen_case, both centrings, both burst methods); fs in {1, 30, 100, 250, 512} (a: also -1, -250, 0, -0.0, nan, inf = outside the domain, '
         'model comparison only; and 12 % of the tables moved so that the first sample of a cycle is a sample k with (k/fs)*fs > k, or the last sample of a cycle a sample k with (k/fs)*fs < k, or the other way round, and the start resp. stop put on the time stamp k/fs of exactly that sample; fs in {100, 50, 200, 30, 7, 300}), start/stop in {None, exactly on a cycle boundary, between boundaries, before/after everything, reversed}, '
-        'reset_indices both; limit_signal on sample grids with limits None / on-grid / off-grid; split_samples_df / drop_samples_df on '
+        'reset_indices both; limit_signal on sample grids starting at 0 with limits None / on-grid / off-grid, and (400 quick / 4000 thorough) on time axes of spacing 1/fs, '
+        'fs in {0.5, 1, 3, 30, 100, 250, 512, 1000, 2048}, whose first time stamp is NEGATIVE (event-locked epochs, some ending before 0), positive (1 .. 1e5 samples) or 0, '
+        'built as (arange(n)+k0)/fs, k0/fs+arange(n)/fs, linspace or arange(t0, t1, 1/fs), limits None / exactly on a time stamp / between two / the first / '
+        'the last / 0 / below the first / above the last (negative or reversed limits are refused by the library: model comparison only); split_samples_df / drop_samples_df on '
         'tables whose column names start with, contain, or nearly spell "sample_" (n_sample_*, resample_*, samples_*, Sample_*, sample, '
         'sample_) with int / float+NaN / bool / string columns, and on compute_features tables; flatten_dfs on 1-D and 2-D lists of tables '
         '(incl. empty tables) with int or string labels given as list, nested list or ndarray, default and non-default column_name, '
@@ -200,7 +203,69 @@ def cases(rng, tier):
         out.append({'kind': 'split', 'names': names, 'dtypes': [rng.choice(_DTYPES) for _ in names], 'nrow': rng.randint(0, 4)})
     for _ in range(30 if quick else 300):
         out.append({'kind': 'split', 'pipe': _pipe(rng, tier), 'return_samples': rng.random() < 0.85})
+    # limit_signal on time axes that do NOT start at 0 (event-locked epochs start at a negative time, a segment of a
+    # recording at a positive one); the limits are placed relative to the axis handed over
+    for _ in range(400 if quick else 4000):
+        out.append(_axis_case(rng))
     return out
+
+
+def _axis_times(c):
+    """The time axis of a limit_signal case: arange(0, n/fs, 1/fs) (no 'axis' key), or n samples of spacing 1/fs whose first
+    time stamp is k0/fs, built the ways users build them."""
+    n, fs = c['n'], c['fs']
+    ax = c.get('axis')
+    if not ax:
+        return np.arange(0, n / fs, 1 / fs)
+    k0 = ax['k0']
+    if ax['how'] == 'index':
+        return (np.arange(n) + k0) / fs
+    if ax['how'] == 'offset':
+        return k0 / fs + np.arange(n) / fs
+    if ax['how'] == 'linspace':
+        return np.linspace(k0 / fs, (k0 + n - 1) / fs, n)
+    return np.arange(k0 / fs, (k0 + n) / fs, 1 / fs)[:n]          # 'arange'
+
+
+def _axis_case(rng):
+    fs = rng.choice([1.0, 100.0, 250.0, 512.0, 1000.0, 30.0, 0.5, 2048.0, 3.0])
+    n = rng.randint(1, 60)
+    sign = rng.choice(['neg', 'neg', 'neg', 'pos', 'pos', 'zero'])
+    if sign == 'neg':         # the axis starts before the event; a fifth of them also ends before it
+        k0 = -rng.randint(1, n + 1) if rng.random() < 0.8 else -rng.randint(n + 1, n + 40)
+    elif sign == 'pos':
+        k0 = rng.choice([rng.randint(1, 10), rng.randint(1, 300), rng.randint(1000, 100000)])
+    else:
+        k0 = 0
+    c = {'kind': 'limit_signal', 'fs': fs, 'n': n, 'axis': {'k0': k0, 'how': rng.choice(['index', 'index', 'offset', 'linspace', 'arange'])}}
+    times = [float(t) for t in _axis_times(c)]
+    dt = 1 / fs
+    nonneg = [t for t in times if t >= 0]
+
+    def lim():
+        if rng.random() < 0.2:
+            return None
+        mode = rng.choice(['on', 'on', 'on', 'between', 'between', 'below', 'above', 'first', 'last', 'zero'])
+        if mode == 'on':
+            return rng.choice(times)
+        if mode == 'between':
+            return rng.choice(times) + rng.choice([0.5, 0.25, -0.25]) * dt
+        if mode == 'below':
+            return times[0] - rng.choice([0.5, 1, 3, 50]) * dt
+        if mode == 'above':
+            return times[-1] + rng.choice([0.5, 1, 3, 50]) * dt
+        return {'first': times[0], 'last': times[-1], 'zero': 0.0}[mode]
+    a, b = lim(), lim()
+    # the library accepts 0 <= start <= stop only: most negative limits are replaced by accepted ones (None, 0, a time
+    # stamp >= 0, something after the axis); the remaining ones and reversed limits go to the model comparison (ValueError)
+    if a is not None and a < 0 and rng.random() < 0.8:
+        a = rng.choice([None, None, 0.0] + ([rng.choice(nonneg)] if nonneg else []))
+    if b is not None and b < 0 and rng.random() < 0.8:
+        b = rng.choice([None, 0.0, times[-1] + dt if times[-1] + dt >= 0 else 0.5 * dt] + ([rng.choice(nonneg), rng.choice(nonneg) + 0.5 * dt] if nonneg else []))
+    if a is not None and b is not None and a > b and rng.random() < 0.85:
+        a, b = b, a
+    c['start'], c['stop'] = a, b
+    return c
 
 
 # ----------------------------------------------------------------------------------------------------------------
@@ -435,8 +500,7 @@ def run_impl(c):
         return _run_limit_df(c)
     if k == 'limit_signal':
         from bycycle.utils.timeseries import limit_signal
-        n, fs = c['n'], c['fs']
-        times = np.arange(0, n / fs, 1 / fs)
+        times = _axis_times(c)
         sig = np.arange(len(times), dtype=float)
         try:
             s, t = limit_signal(times, sig, start=c['start'], stop=c['stop'])
@@ -567,7 +631,7 @@ def nontrivial(c, o):
     if k == 'limit_df':
         return 'rows' in o and 0 < len(o['rows']) < len(o['in_rows'])
     if k == 'limit_signal':
-        return 'kept' in o and 0 < len(o['kept']) < c['n']
+        return 'kept' in o and 0 < len(o['kept']) < len(o['times'])
     if k == 'flatten':
         return 'pairs' in o and c['n0'] * c['n1'] >= 2
     if k == 'split':
@@ -589,6 +653,12 @@ def kind_of(c, o):
             k += '/grid:' + c['grid']    # a limit on the time stamp k/fs of a cycle boundary k with (k/fs)*fs != k
         if o.get('input_unchanged') is False:
             k += '/input-modified'       # not a clause of C18; recorded only
+    if c['kind'] == 'limit_signal' and c.get('axis'):
+        k0 = c['axis']['k0']
+        k += '/axis-from-' + ('negative' if k0 < 0 else 'positive' if k0 > 0 else 'zero')
+        k += '/start-' + ('none' if c['start'] is None else 'neg' if c['start'] < 0 else 'given')
+        if 'kept' in o:
+            k += '/all' if len(o['kept']) == len(o['times']) else '/none' if not o['kept'] else '/some'
     return k + ('/err' if 'err' in o else '')
 
 
